@@ -2,7 +2,7 @@
 from __future__ import annotations
 
 from vf.core import SECTOR, Model, RawLayer, as_handle, rng_for
-from vf.diskcheck import compare_reads, continuation_reads, crossing_count, gen_requests
+from vf.diskcheck import compare_reads, continuation_reads, fault_retry_reads, crossing_count, gen_requests
 from vf.monitors import call
 from vf.writers import qcow2 as w
 
@@ -201,6 +201,7 @@ def run(case: dict, ctx) -> dict:
             reqs.append((a, min(rng.randrange(cov // 2, 2 * cov + 2), 3 << 20)))
     res["cnt"]["l2_table_structured_cases"] = int(tabled)
     continuation_reads(q, model, reqs, rng, res, MECH)
+    fault_retry_reads(q, model, reqs, rng, res, MECH)
     compare_reads(q, model, reqs, res, MECH, byte_cap=(32 << 20) if not big else (64 << 20))
     infl = [e for e in ctx.inflate.events if "qcow2.py" in e["site"]]
     for e in infl:
